@@ -678,7 +678,7 @@ def minimise(rp, cls):
         cand["scenario"]["argv"] = [a for a in cand["scenario"]["argv"] if a != vp]
         cand["valids"] = [v for v in cand["valids"] if v["path"] != vp]
         runs += 1
-        if cls in classes_of(cand):
+        if core.budget_ok() and cls in classes_of(cand):
             cur = cand
     ch = cur["plan"].get("choices") or []
     lo, hi = 0, len(ch)
@@ -687,13 +687,13 @@ def minimise(rp, cls):
         cand = json.loads(json.dumps(cur))
         cand["plan"]["choices"] = ch[:mid]
         runs += 1
-        if cls in classes_of(cand):
+        if core.budget_ok() and cls in classes_of(cand):
             hi = mid
         else:
             lo = mid + 1
     cand = json.loads(json.dumps(cur))
     cand["plan"]["choices"] = ch[:hi]
-    if cls in classes_of(cand):
+    if core.budget_ok() and cls in classes_of(cand):
         cur = cand
     return cur
 
